@@ -12,6 +12,9 @@ pub const KAMINO: Pubkey = solana_sdk::pubkey!("KLend2g3cP87fffoy8q1mQqGKjrxjC8b
 pub const SOLEND: Pubkey = solana_sdk::pubkey!("So1endDq2YkqhipRh3WViPa8hdiSpxWy6z3Z6tMCpAo");
 /// slot the reference model judges venue staleness against (set by the driver from the Clock it wrote)
 pub static REF_SLOT: std::sync::atomic::AtomicU64 = std::sync::atomic::AtomicU64::new(0);
+/// diagnostic switch: value everything at the reported price (used to attribute an acceptance to
+/// missing conservative bias rather than to anything else)
+pub static REF_NO_BIAS: std::sync::atomic::AtomicBool = std::sync::atomic::AtomicBool::new(false);
 pub fn set_slot(s: u64) {
     REF_SLOT.store(s, std::sync::atomic::Ordering::Relaxed);
 }
@@ -224,7 +227,7 @@ impl RefPx {
         }
     }
     pub fn bias(&self, ema: bool) -> Rat {
-        if self.fixed {
+        if self.fixed || REF_NO_BIAS.load(std::sync::atomic::Ordering::Relaxed) {
             return zero();
         }
         let (p, kc) = self.pc(ema);
